@@ -490,4 +490,77 @@ theorem flags_are_plumbing (fuel : Nat) (ps : List Policy) (d s : Bool) (r : Run
   | none => trivial
   | some x => exact ⟨rfl, rfl, rfl, rfl⟩
 
+/-! ## A compositional, flag-free denotation
+
+`stack_congr` says that layers only look at (value, error, verdict, run). Hence the semantics factors through the domain `Den`
+of observable meanings: each policy has a meaning function `applyDen` on `Den`, and the meaning of a stack is the composition
+of these functions — the denotational reading of "policies compose as nested wrappers". -/
+/-- what an execution layer means to an observer: value, error, verdict, and the run (invocations, statistics, events, world) -/
+abbrev Obs := Int × Option Err × Bool
+abbrev Den := Run → Option (Obs × Run)
+
+def erase (l : Layer) : Den := fun r => (l r).map (fun x => ((x.1.val, x.1.err, x.1.successAll), x.2))
+
+/-- any representative of an observable meaning (the plumbing flags are set to arbitrary values) -/
+def lift (d : Den) : Layer := fun r => (d r).map (fun y => (⟨y.1.1, y.1.2.1, true, y.1.2.2, y.1.2.2⟩, y.2))
+
+theorem lift_erase (l : Layer) : LEqv (lift (erase l)) l := by
+  intro r
+  unfold lift erase
+  cases l r with
+  | none => trivial
+  | some x => exact ⟨rfl, rfl, rfl, rfl⟩
+
+theorem erase_congr {l l' : Layer} (h : LEqv l l') : erase l = erase l' := by
+  funext r
+  have := h r
+  unfold erase
+  rcases eqv_cases this with ⟨ha, hb⟩ | ⟨p, q, r1, ha, hb, h1, h2, h3⟩
+  · simp [ha, hb]
+  · simp [ha, hb, h1, h2, h3]
+
+/-- the flag-free meaning of a policy: a function from the meaning of what it wraps to the meaning of the wrapped whole -/
+def applyDen (fuel pos : Nat) (p : Policy) (d : Den) : Den := erase (applyPolicy fuel pos p (lift d))
+
+def denStack (d : Den) (fuel : Nat) : Nat → List Policy → Den
+  | _, [] => d
+  | pos, p :: ps => applyDen fuel pos p (denStack d fuel (pos + 1) ps)
+
+/-- **compositional, flag-free denotation**: what a stack of policies means to an observer is obtained by applying each
+policy's flag-free meaning function, outermost last, to the observable meaning of the wrapped function. The `Done` /
+`Success` flags of `PolicyResult` never carry information from one layer to the next that is not in (value, error, verdict). -/
+theorem den_compositional (fuel : Nat) (ps : List Policy) (pos : Nat) (fn : Layer) :
+    erase (stackOver fn fuel pos ps) = denStack (erase fn) fuel pos ps := by
+  induction ps generalizing pos with
+  | nil => rfl
+  | cons p ps ih =>
+    show erase (applyPolicy fuel pos p (stackOver fn fuel (pos + 1) ps)) = applyDen fuel pos p (denStack (erase fn) fuel (pos + 1) ps)
+    rw [← ih (pos + 1)]
+    unfold applyDen
+    apply erase_congr
+    apply applyPolicy_congr
+    intro r
+    have := lift_erase (stackOver fn fuel (pos + 1) ps) r
+    -- symmetric use
+    rcases eqv_cases this with ⟨ha, hb⟩ | ⟨p', q, r1, ha, hb, h1, h2, h3⟩
+    · rw [ha, hb]; trivial
+    · rw [ha, hb]; exact ⟨h1.symm, h2.symm, h3.symm, rfl⟩
+
+/-- for the executor: the observable meaning of `executeStack` is the denotation of the policy list over the function's meaning -/
+theorem execute_denotation (fuel : Nat) (ps : List Policy) :
+    erase (executeStack fuel 0 ps) = denStack (erase base) fuel 0 ps := by
+  rw [← stackOver_base]; exact den_compositional fuel ps 0 base
+
+/-- the representative chosen by `lift` does not matter: any values of the two plumbing flags give the same meaning function -/
+theorem applyDen_any_flags (fuel pos : Nat) (p : Policy) (d : Den) (dn sc : Bool) :
+    erase (applyPolicy fuel pos p (fun r => (d r).map (fun y => (⟨y.1.1, y.1.2.1, dn, sc, y.1.2.2⟩, y.2)))) = applyDen fuel pos p d := by
+  unfold applyDen
+  apply erase_congr
+  apply applyPolicy_congr
+  intro r
+  show Eqv ((d r).map _) ((d r).map _)
+  cases d r with
+  | none => trivial
+  | some y => exact ⟨rfl, rfl, rfl, rfl⟩
+
 end Failsafe.Props.C01
